@@ -5,6 +5,8 @@
 package main
 
 import (
+	"sync"
+	"encoding/json"
 	"flag"
 	"fmt"
 	"os"
@@ -12,6 +14,42 @@ import (
 
 	"verifharness/lib/corr"
 )
+
+var (
+	statMu sync.Mutex
+	stats  = map[string]int{}
+)
+
+// note: branch statistics of the implementation runs (kind/sub-kind : status), reported in the evidence.
+func note(op []string, res string) {
+	if len(op) == 0 {
+		return
+	}
+	k := op[0]
+	switch op[0] {
+	case "upd":
+		switch {
+		case op[7] != "-":
+			k = "upd-replace"
+		case op[6] != "-":
+			k = "upd-add"
+		case op[5] == "1" || op[4] != "0":
+			k = "upd-extend"
+		}
+	case "commit":
+		if strings.HasPrefix(op[3], "-") {
+			k = "commit-delete"
+		}
+	case "resp":
+		k = "resp-" + op[3]
+	case "kill", "shut", "stake", "unstake", "collect":
+		k = op[0] + "-" + op[1]
+	}
+	st := strings.Fields(res + " x")[0]
+	statMu.Lock()
+	stats[k+":"+st]++
+	statMu.Unlock()
+}
 
 func impl(ops []string) []string {
 	outs := make([]string, len(ops))
@@ -47,12 +85,13 @@ func impl(ops []string) []string {
 				outs[i] = "bad-op"
 				return
 			}
-			x.hist += line + "\n"
+			x.hist += strings.Join(op, " ") + "\n"
 			res := x.run(op)
 			if res == "bad-op" {
 				outs[i] = res
 				return
 			}
+			note(op, res)
 			outs[i] = res + " # " + x.render(x.snapshot())
 		}()
 	}
@@ -74,7 +113,54 @@ func propArg() string {
 	return p
 }
 
+// annotateOps: run a hand-written script (operation lines without observations) on the real engine and return the
+// lines with the observed status/amounts appended — the form the correspondence and the replays use.
+func annotateOps(lines []string) []string {
+	var out []string
+	var x *world
+	for _, line := range lines {
+		op, _ := splitOp(line)
+		if len(op) == 3 && op[0] == "init" {
+			var err error
+			x, err = newWorld(op[1], op[2] == "1")
+			if err != nil {
+				panic(err)
+			}
+			out = append(out, strings.Join(op, " "))
+			continue
+		}
+		if x == nil {
+			out = append(out, strings.Join(op, " ")+" ; bad-op")
+			continue
+		}
+		x.hist += strings.Join(op, " ") + "\n"
+		out = append(out, strings.Join(op, " ")+" ; "+x.run(op))
+	}
+	return out
+}
+
+func annotate(path string) {
+	b, err := os.ReadFile(path)
+	if err != nil {
+		fmt.Fprintln(os.Stderr, err)
+		os.Exit(2)
+	}
+	var in struct {
+		Ops []string `json:"ops"`
+	}
+	if err := json.Unmarshal(b, &in); err != nil {
+		fmt.Fprintln(os.Stderr, err)
+		os.Exit(2)
+	}
+	j, _ := json.MarshalIndent(map[string]interface{}{"ops": annotateOps(in.Ops)}, "", " ")
+	fmt.Println(string(j))
+}
+
 func main() {
+	if f := os.Getenv("STORAGE_ANNOTATE"); f != "" {
+		annotate(f)
+		return
+	}
 	p := propArg()
 	model := "STORAGE"
 	if os.Getenv("STORAGE_NOMODEL") != "" {
@@ -88,13 +174,22 @@ func main() {
 			}
 			return 120
 		},
-		Fixed: fixedCases,
+		Fixed: fixed(),
 		Nontrivial: func(ops, outs []string) bool {
 			k := map[string]bool{}
 			for _, o := range ops {
 				k[strings.Fields(o + " x")[0]] = true
 			}
 			return len(ops) >= 8 && len(k) >= 5
+		},
+		Extra: func() map[string]interface{} {
+			statMu.Lock()
+			defer statMu.Unlock()
+			m := map[string]interface{}{}
+			for k, v := range stats {
+				m[k] = v
+			}
+			return map[string]interface{}{"impl_branch_hist": m}
 		},
 		DiffSignature: func(d *corr.Disagreement) string {
 			if d.FirstDiff >= 0 && d.FirstDiff < len(d.Ops) {
